@@ -17,7 +17,7 @@ LEVEL = "exploration"
 FLAVOUR = "plain"
 TIERS = {"quick": (40000, 150), "thorough": (1500000, 3000)}
 RULE_TEXT = ("one run = 1-4 producer tasks x up to 8 uniquely named events each, one stepper (step(0) / step(ms) / step(forever)), "
-             "a generated chain chart (k raises per external event, eventless follow-ups, in 25% a targetless first stage that only raises, in 15% of the lua charts a first stage whose guard cannot be evaluated (the error event starts the chain), in 60% a watching region with guarded eventless transitions) under one seeded schedule; non-trivial = "
+             "a generated chain chart (k raises per external event, eventless follow-ups, in 25% a targetless first stage that only raises, in 15% of the lua charts a first stage whose guard cannot be evaluated (the error event starts the chain), in 60% a watching region with guarded eventless transitions; in 15% of the plans the session has run and was reset, and 1-3 events are handed over before the stepper starts) under one seeded schedule; non-trivial = "
              "the receive() of one task overlapped (by global sequence number) a receive() or a dequeue of another task; "
              "distinct = distinct scheduler decision-sequence hashes among non-trivial runs")
 ASSUMPTIONS = [
@@ -87,8 +87,14 @@ def gen_plan(seed, k):
 
     nprod = rp.randint(1, 4)
     block = rp.choice([0, 1, 7, 50, -1, -1])
-    actors = {"main": [{"op": "create", "i": 0, "chart": "main", "engine": rp.choice(["default", "large", "fast"])},
-                       {"op": "spawn", "actor": "stepper"}]}
+    actors = {"main": [{"op": "create", "i": 0, "chart": "main", "engine": rp.choice(["default", "large", "fast"])}]}
+    if rp.random() < 0.15:
+        # the session has run before and was reset: what is handed to receive() between the reset and the next step is
+        # processed like any other event
+        actors["main"] += [{"op": "run", "i": 0, "block": 0, "until": ["IDLE"], "max": 30}, {"op": "reset", "i": 0}]
+        for q in range(rp.randint(1, 3)):
+            actors["main"].append({"op": "recv", "i": 0, "name": "p.m.%d" % q})
+    actors["main"].append({"op": "spawn", "actor": "stepper"})
     for p in range(nprod):
         actors["main"].append({"op": "spawn", "actor": "p%d" % p})
         ops = []
@@ -103,7 +109,7 @@ def gen_plan(seed, k):
     for p in range(nprod):
         actors["main"].append({"op": "join", "actor": "p%d" % p})
     # bounded liveness once the producers are done: 300 further steps (or quiescence) must have processed everything
-    total_events = sum(1 for a in actors if a.startswith("p") for o in actors[a] if o["op"] == "recv")
+    total_events = sum(1 for a in actors if a.startswith("p") or a == "main" for o in actors[a] if o["op"] == "recv")
     drain_steps = total_events * (nraise + neps + 6) + 200
     actors["main"].append({"op": "drain", "i": 0, "n": drain_steps})
     actors["main"].append({"op": "recv", "i": 0, "name": "quit"})
